@@ -667,6 +667,30 @@ func runC13(c *Ctx) error {
 			c13GetHeadersCheck(c, t, name, ctxOps, op, loc, stop, out)
 			c.R.Case(name+op, mixes)
 		}
+		// boundary probes around the per-message cap: stop exactly cap-1, cap, cap+1, cap+2 above the start
+		if int(t.best.Height) > 2010 {
+			for _, base := range []int64{0, 1, int64(rng.Intn(int(t.best.Height) - 2005)), t.best.Height - 2002} {
+				for _, d := range []int64{1, 2, 1999, 2000, 2001, 2002} {
+					if base+d > t.best.Height {
+						continue
+					}
+					var loc []string
+					if base > 0 {
+						loc = []string{t.chain[base].Hash}
+					} else {
+						loc = []string{display(shaStr(fmt.Sprint("nomatch", base, d)))}
+					}
+					op := "getheaders " + t.chain[base+d].Hash + " " + strings.Join(loc, " ")
+					out, err := both(c, ci, l, name, ctxOps, op)
+					if err != nil {
+						return err
+					}
+					c13GetHeadersCheck(c, t, name, ctxOps, op, loc, t.chain[base+d].Hash, out)
+					c.R.Case(name+op, d >= 1999)
+					c.R.Count("getheaders:cap-boundary", 1)
+				}
+			}
+		}
 		if sIdx == 0 {
 			c.R.Sample(map[string]any{"store": name, "ops": ops, "locator": out}, 3)
 		}
